@@ -17,6 +17,8 @@ of the inputs, level nesting) are evaluated inside Coq on the OBSERVED rows/tree
 import json
 import os
 import re
+import threading
+from concurrent.futures import ThreadPoolExecutor
 
 import vcheck
 
@@ -28,6 +30,7 @@ COLLISION_ACROSS = "node-id-collision-across-profiles"
 
 
 M64 = (1 << 64) - 1
+EXTRA_LOCK = threading.Lock()
 
 
 class W:
@@ -316,6 +319,11 @@ def eval_cases(ck, name, cases, hashes, templates=(), judge_text=False):
     rc, out = ck.coq_eval(name, txt)
     if rc != 0:
         return None, None, None, out
+    with EXTRA_LOCK:
+        return parse_eval(ck, name, out, templates, judge_text)
+
+
+def parse_eval(ck, name, out, templates, judge_text):
     flat = " ".join(out.split()).replace("%Z", "")
     d = re.search(r"\bD = (?:\[(.*?)\]|nil)\s*: list Z", flat)
     m = re.search(r"\bM = (?:\[(.*?)\]|nil)\s*: list Z", flat)
@@ -464,13 +472,16 @@ def run_corr(ck):
     for c in tcases:
         cur.append(c)
         cur_sz += case_size(c) + 20
-        if cur_sz > 40000:
+        if cur_sz > (12000 if ck.tier == "quick" else 40000):
             shards.append(cur)
             cur, cur_sz = [], 0
     if cur:
         shards.append(cur)
-    for k, sh in enumerate(shards):
-        m, v, h, out = eval_cases(ck, "C16_cases_%d" % k, sh, hashes if k == 0 else [], templates, judge_text=(k == 0))
+    # the shards are independent coqc runs: evaluate them side by side (results are parsed under a lock)
+    with ThreadPoolExecutor(max_workers=4) as pool:
+        futs = [pool.submit(eval_cases, ck, "C16_cases_%d" % k, sh, hashes if k == 0 else [], templates, k == 0) for k, sh in enumerate(shards)]
+        results = [f.result() for f in futs]
+    for m, v, h, out in results:
         if m is None:
             ck.obligation("generated cases evaluated inside Coq", False, out[-2000:])
             return
